@@ -24,6 +24,12 @@ pub enum Kind {
     ExplicitTeAndHost,
     /// PUT with explicit `host` and `content-length: n`
     SizedAndHost(u64),
+    /// POST with `Transfer-Encoding: Chunked` / `CHUNKED` (coding names are case-insensitive)
+    ExplicitTeOtherCase(bool),
+    /// POST with `transfer-encoding: chunked` and `content-length: n` (chunked wins, the length is not a limit)
+    TeAndCl(u64),
+    /// POST with `transfer-encoding: gzip`, `transfer-encoding: chunked` on two lines and `content-length: n`
+    TeTwoLinesAndCl(u64),
 }
 
 impl Kind {
@@ -79,6 +85,13 @@ impl Sender {
             Kind::DefaultChunkedHttp10 => b.method(Method::POST).version(ureq_proto::http::Version::HTTP_10),
             Kind::ExplicitTeAndHost => b.method(Method::POST).header("Host", "explicit.test").header("Transfer-Encoding", "chunked"),
             Kind::SizedAndHost(n) => b.method(Method::PUT).header("host", "explicit.test").header("content-length", n.to_string()),
+            Kind::ExplicitTeOtherCase(upper) => b.method(Method::POST).header("Transfer-Encoding", if upper { "CHUNKED" } else { "Chunked" }),
+            Kind::TeAndCl(n) => b.method(Method::POST).header("content-length", n.to_string()).header("transfer-encoding", "chunked"),
+            Kind::TeTwoLinesAndCl(n) => b
+                .method(Method::POST)
+                .header("transfer-encoding", "gzip")
+                .header("content-length", n.to_string())
+                .header("transfer-encoding", "chunked"),
         };
         let req = b.body(()).map_err(|e| e.to_string())?;
         let mut head = [0u8; 512];
